@@ -4,7 +4,9 @@
 pub mod alloc;
 pub mod crash;
 pub mod enumx;
+pub mod net;
 pub mod props;
+pub mod refimpl;
 pub mod report;
 pub mod sched;
 pub mod seq;
